@@ -38,7 +38,9 @@ def examples(tier):
 def strategy(draw, tier="quick"):
     regime = draw(st.sampled_from(["FLOAT", "FLOAT", "FLOAT", "BOOL", "QQ", "FREE", "MT"]))
     g = draw(gen.grammar(regimes=[regime], **gen.size(tier)))
-    return {"g": g, "perm": draw(st.sampled_from([0, 2, "rev"]))}
+    # the end-of-sequence symbol is an argument of add_EOS: default, or a caller-chosen one
+    eos = draw(st.sampled_from([None, None, "$", "</s>", 7, ["eos", 1]]))
+    return {"g": g, "perm": draw(st.sampled_from([0, 2, "rev"])), "eos": eos}
 
 
 def check(case, ctx):
@@ -54,7 +56,11 @@ def check(case, ctx):
     want = {xs: ref(xs) for xs in strings}
 
     # ---- EOS wrapping (any semiring)
-    e = ctx.call("add_EOS", add_EOS, cfg)
+    from vf.cfgref import sym
+
+    EOS = globals()["EOS"] if case.get("eos") is None else sym(case["eos"])
+    ctx.cls("eos:default" if case.get("eos") is None else "eos:custom")
+    e = ctx.call("add_EOS", add_EOS, cfg) if case.get("eos") is None else ctx.call("add_EOS", add_EOS, cfg, EOS)
     if not isinstance(e, LibRaised):
         ctx.check("add_EOS|V", set(e.V) == set(cfg.V) | {EOS}, "add_EOS: vocabulary is not V + EOS")
         GE = RG.from_lib(M, e)
